@@ -18,14 +18,15 @@ LEVEL = "model_checking"
 QUICK_CFGS = [
     "memory", "localdisk", "filesvfs", "diskpacked", "diskpacked[max=300]",
     "blobpacked", "encrypt", "replica(gate,gate)", "replica[min=1](gate,gate,gate)", "shard(gate,gate)", "cond",
-    "overlay", "overlay[nodeleted=1]", "namespace", "proxycache[cache=20]", "proxycache", "union(gate,gate,gate)",
+    "overlay", "overlay[pre=all]", "overlay[pre=half]", "overlay[nodeleted=1]", "namespace", "namespace[hide=all]",
+    "proxycache[pre=all;cache=20]", "proxycache[pre=half]", "proxycache[cache=20]", "proxycache", "union(gate,gate,gate)",
     "replica(shard,shard)", "overlay(gate,blobpacked)", "namespace(encrypt)", "proxycache[cache=80](replica)",
     "proxycache(gate[nosub=1])",
 ]
 THOROUGH_EXTRA = [
     "diskpacked[kv=leveldb]", "diskpacked[kv=kv]", "diskpacked[kv=sqlite]", "diskpacked[max=300;kv=leveldb]",
     "blobpacked[kv=leveldb]", "encrypt[kv=kv]", "shard(gate,gate,gate)", "replica[min=2](gate,gate,gate)",
-    "shard(replica,replica)", "overlay(diskpacked,gate)", "overlay(localdisk,filesvfs)", "namespace(diskpacked[max=300])",
+    "shard(replica,replica)", "overlay[pre=all](diskpacked,gate)", "overlay[pre=half](localdisk,filesvfs)", "overlay[pre=all](blobpacked,gate)", "overlay[pre=all](replica,shard)", "namespace(diskpacked[max=300])",
     "cond(replica,shard)", "replica(overlay,namespace)", "proxycache[cache=20](shard)", "union(gate,gate)",
     "blobpacked(gate,diskpacked)", "encrypt(shard,localdisk)", "namespace(namespace)", "overlay(overlay,gate)",
     "replica(blobpacked,encrypt)", "proxycache[cache=20](overlay)", "shard(filesvfs,memory)",
